@@ -91,7 +91,18 @@ func doCompile(src []byte, c *wire.Case) (v *libvore.Vore, cr *wire.Compile) {
 				err = nil
 			}
 		}()
-		v, err = libvore.Compile(string(src))
+		if compileViaFile {
+			f, ferr := os.CreateTemp("", "vw-src-*.vore")
+			if ferr != nil {
+				panic("harness: " + ferr.Error())
+			}
+			f.Write(src)
+			f.Close()
+			defer os.Remove(f.Name())
+			v, err = libvore.CompileFile(f.Name())
+		} else {
+			v, err = libvore.Compile(string(src))
+		}
 	}()
 	cr.LexReads = lexReads
 	if cr.Panic != nil || cr.Budget != "" {
@@ -285,13 +296,23 @@ func opRun(c *wire.Case, res *wire.Result) {
 	}
 }
 
+// compileViaFile: the next doCompile goes through CompileFile
+var compileViaFile bool
+
 func opASTCmp(c *wire.Case, res *wire.Result) {
 	var base string
 	var baseV *libvore.Vore
 	for i, s := range c.Srcs {
 		cc := *c
 		cc.WantAST = false
+		compileViaFile = false
+		for _, k := range c.ViaFile {
+			if k == i {
+				compileViaFile = true
+			}
+		}
 		v, cr := doCompile(s, &cc)
+		compileViaFile = false
 		eq := false
 		if v != nil {
 			d, _ := canonical(v.VerifAST())
